@@ -189,6 +189,17 @@ func cmdCheck(args []string) int {
 					}
 				}
 			}
+			if !(ok && found) {
+				why := fmt.Sprintf("error=%q capped=%v vacuous=%q found=%v", gr.Error, gr.Capped, gr.Vacuous, found)
+				for _, go2 := range gr.Obligs {
+					if go2.Name == o.Name {
+						for _, f := range go2.Failures {
+							why += " status=" + f.Status
+						}
+					}
+				}
+				fmt.Printf("GUARDED-RECHECK %s under `%s` did not discharge: %s\n", o.Name, kf.Guard, why)
+			}
 			if ok && found {
 				o.Status = "known-finding"
 				rep.Failed--
